@@ -45,6 +45,12 @@ type BFSReport struct {
 	Capped      string
 	Samples     [][]string
 	Wall        time.Duration
+	// Unconfirmed counts violations that did not occur again when the same
+	// sequence was run twice more on fresh instances (the harnesses are
+	// deterministic: such a result is an environment fault, it is reported in
+	// the evidence and not as a violation).
+	Unconfirmed      int64
+	FirstUnconfirmed string
 }
 
 // BFSFound is a violating operation sequence.
@@ -115,6 +121,22 @@ func BFS(cfg BFSConfig, run func(seq []int) StepResult) *BFSReport {
 				defer wg.Done()
 				for j := range jobs {
 					r := run(j.seq)
+					if r.Violation != "" {
+						// the same sequence must fail the same way again
+						r2 := run(j.seq)
+						if r2.Sig != r.Sig {
+							r3 := run(j.seq)
+							if r3.Sig != r.Sig {
+								mu.Lock()
+								rep.Unconfirmed++
+								if rep.FirstUnconfirmed == "" {
+									rep.FirstUnconfirmed = fmt.Sprintf("%v: %s: %.300s", name(j.seq), r.Sig, r.Violation)
+								}
+								mu.Unlock()
+								r = r2
+							}
+						}
+					}
 					mu.Lock()
 					results = append(results, res{j.seq, r})
 					mu.Unlock()
